@@ -184,6 +184,23 @@ pub fn resolve_rule_parameter(
         }
     };
 
+    match typ
+    {
+        RuleParameterType::Integer(size) |
+        RuleParameterType::Unsigned(size) |
+        RuleParameterType::Signed(size)
+            if size as u64 >= util::BIGINT_MAX_BITS =>
+        {
+            report.error_span(
+                "value is out of supported range",
+                ast_param.type_span);
+            
+            return Err(());
+        }
+
+        _ => {}
+    }
+
     let name = ast_param.name.clone();
 
 
